@@ -107,7 +107,8 @@ def _(c):
         "msg_id": to_term(sm["msg_id"], "json")}), ["C01", "C02"]
     yield "touch", is_update(S0.t(MB), S1.t(MB), lambda r: r.id == m,
                              {"updated": to_term(sm["server_rx"], "real")}), ["C12"]
-    yield "committed", Not(S1.in_tx["ch"]), ["C09"]
+    # C09, and C01: a stored message survives a restart only if it was committed
+    yield "committed", Not(S1.in_tx["ch"]), ["C09", "C01"]
 
 
 # ---------------------------------------------------------------- listeners
@@ -232,7 +233,7 @@ def _(c):
         "msg_id": to_term(sm["msg_id"], "json")}), ["C01", "C02"]
     yield "touch", is_update(S0.t(MB), S1.t(MB), lambda r: r.id == m,
                              {"updated": to_term(sm["server_rx"], "real")}), ["C12"]
-    yield "committed", Not(S1.in_tx["ch"]), ["C09"]
+    yield "committed", Not(S1.in_tx["ch"]), ["C09", "C01"]
     ls = LS(S0)[c.self_ref]
     yield "fanout", fanout(S0, S1, lambda cn: ls[cn], c.a.sm), ["C02"]
 
